@@ -640,6 +640,9 @@ func replay(f lib.Flags, res *lib.Result, drv *lib.Drv) {
 		}
 		res.Sample(map[string]any{"case": cs})
 		return
+	case "stopnow":
+		runStopImmediately(f, res, drv)
+		return
 	case "free", "stop":
 		res.Note("replay of a " + cs.Mode + " scenario: re-running the whole family with the stored seed")
 		if cs.Mode == "free" {
@@ -681,6 +684,7 @@ func main() {
 	runSeq(f, res, drv, r.Fork())
 	runSched(f, res, drv, r.Fork())
 	runStop(f, res, r.Fork())
+	runStopImmediately(f, res, drv)
 	runFree(f, res, r.Fork())
 	runPairs(f, res)
 	res.Write(f.Out)
